@@ -135,7 +135,7 @@ def handleMilp (args : List Val) : Option String := do
 
 /-! request `["bnb", c, A, b, ints, minimize, eps, maxIter, maxNodes, gapTol, solutionLimit, warm | null]`
   (`ints` ascending = CPython's iteration order of a set of small non-negative ints)
-reply `[status, x | null, obj | null, nodes, sols, near, nodesOk, maxNodeLpIters]` : the mirror `solveMilp` of `solve_milp(heuristics=False)` -/
+reply `[status, x | null, obj | null, nodes, sols, near, nodesOk, maxNodeLpIters, negTie]` : the mirror `solveMilp` of `solve_milp(heuristics=False)` -/
 def handleBnb (args : List Val) : Option String := do
   let [c, A, b, ints, mn, eps, mi, mxn, gap, sl, warm] := args | none
   let c ← c.toRats?; let A ← A.toRatss?; let b ← b.toRats?; let ints ← ints.toNats?
@@ -144,7 +144,7 @@ def handleBnb (args : List Val) : Option String := do
   let warm ← warm.toOpt? Val.toRats?
   let o := solveMilp ⟨c, A, b, ints, mn⟩ ⟨eps, mi, mxn, gap, sl, warm⟩
   pure (Val.arr [.str o.status.name, .ofOpt .ofRats o.x, .ofOpt .ofRat o.objective, .int o.nodes,
-    .arr (o.sols.map .ofRats), .bool o.near, .bool o.ok, .int o.maxIt]).render
+    .arr (o.sols.map .ofRats), .bool o.near, .bool o.ok, .int o.maxIt, .bool o.negTie]).render
 
 /-! request `["detbin", eps, sets]`, `sets` = list of `[A, b, ints, n]`
 reply: per set `[detectBinary at 0.999·eps, at eps, at 1.001·eps]` – the mirror of `_detect_binary` that
